@@ -146,18 +146,40 @@ Proof.
     + exfalso. apply H; [discriminate|reflexivity].
 Qed.
 
-Lemma after_branches_error : forall w o ord e,
-  g_err (w_g w) = Some e ->
-  is_err (snd (match run_nodes w (ord ++ map fst (w_nodes w)) with
-               | (w2, Some er) => (w2, OErr er)
-               | (w2, None) => let '(g', out) := g_compile fixed (w_g w2) o in (w_set_g g' w2, out)
-               end)).
+(* the static values stage touches neither the build error nor the component tag *)
+Lemma run_statics_err_cmp : forall v order w,
+  g_err (w_g (fst (run_statics v w order))) = g_err (w_g w) /\
+  g_cmp (w_g (fst (run_statics v w order))) = g_cmp (w_g w).
 Proof.
-  intros w o ord e E.
+  induction order as [|k rest IH]; intros w; simpl; [auto|].
+  destruct (alist_get k (w_nodes w)) as [n|]; [|apply IH].
+  destruct (wn_static n) as [|f fs]; [apply IH|].
+  dif; [auto|].
+  destruct (check_mapped (wn_mapped n) (f :: fs)) as [m' [e|]]; [auto|].
+  match goal with |- context[run_statics v ?W rest] => destruct (IH W) as [A B]; rewrite A, B end. auto.
+Qed.
+
+(* what Workflow.compile does once the deferred branches are in *)
+Definition after_nodes (w : wstate) (o : copt) (ord sord : list string) : wstate * outcome :=
+  match run_nodes w (ord ++ map fst (w_nodes w)) with
+  | (w2, Some er) => (w2, OErr er)
+  | (w2, None) =>
+    match run_statics fixed w2 (sord ++ map fst (w_nodes w2)) with
+    | (w3, Some e) => (w3, OErr e)
+    | (w3, None) => let '(g', out) := g_compile fixed (w_g w3) o in (w_set_g g' w3, out)
+    end
+  end.
+
+Lemma after_branches_error : forall w o ord sord e,
+  g_err (w_g w) = Some e -> is_err (snd (after_nodes w o ord sord)).
+Proof.
+  intros w o ord sord e E. unfold after_nodes.
   destruct (run_nodes_sticky (ord ++ map fst (w_nodes w)) w e E) as [H|H];
     destruct (run_nodes w (ord ++ map fst (w_nodes w))) as [w2 [er|]]; simpl in *; try (eexists; reflexivity).
   - congruence.
-  - rewrite (g_compile_sticky fixed _ o _ H). simpl. eexists; reflexivity.
+  - destruct (run_statics_err_cmp fixed (sord ++ map fst (w_nodes w2)) w2) as [A _].
+    destruct (run_statics fixed w2 (sord ++ map fst (w_nodes w2))) as [w3 [er|]]; simpl in *; [eexists; reflexivity|].
+    rewrite H in A. rewrite (g_compile_sticky fixed _ o _ A). simpl. eexists; reflexivity.
 Qed.
 
 (* inference never touches the build error or the compiled flag *)
@@ -269,43 +291,41 @@ Proof.
       right; left. split; [|assumption]. rewrite (has_node_of_keys (w_g w) g' _ K). assumption.
 Qed.
 
-Lemma dead_after_branches : forall w o ord,
-  dead w ->
-  is_err (snd (match run_nodes w (ord ++ map fst (w_nodes w)) with
-               | (w2, Some er) => (w2, OErr er)
-               | (w2, None) => let '(g', out) := g_compile fixed (w_g w2) o in (w_set_g g' w2, out)
-               end)).
+Lemma dead_after_branches : forall w o ord sord,
+  dead w -> is_err (snd (after_nodes w o ord sord)).
 Proof.
-  intros w o ord D. unfold dead in D. destruct (g_err (w_g w)) as [e|] eqn:E; [|congruence].
+  intros w o ord sord D. unfold dead in D. destruct (g_err (w_g w)) as [e|] eqn:E; [|congruence].
   eapply after_branches_error; eassumption.
 Qed.
 
 (* a deferred AddBranch from END, from an unknown node, or with a single target: Compile fails *)
-Theorem workflow_rejects_bad_branch_call : forall w o ord,
+Theorem workflow_rejects_bad_branch_call : forall w o ord sord,
   g_compiled (w_g w) = false ->
   (exists b, In b (w_branches w) /\ bad_branch_call (w_g w) b) ->
-  is_err (snd (w_compile fixed w o ord)).
+  is_err (snd (w_compile fixed w o ord sord)).
 Proof.
-  intros w o ord C V. unfold w_compile. destruct (g_err (w_g w)); [eexists; reflexivity|].
+  intros w o ord sord C V. unfold w_compile. destruct (g_err (w_g w)); [eexists; reflexivity|].
   destruct (run_branches fixed w (w_branches w)) as [w1 [out|]] eqn:B.
   - simpl. eapply run_branches_stop_is_err; eassumption.
-  - apply dead_after_branches. eapply run_branches_bad_call; eassumption.
+  - apply (dead_after_branches w1 o ord sord). eapply run_branches_bad_call; eassumption.
 Qed.
 
 (* ---- options on a Workflow *)
-Lemma w_compile_rejects_option : forall w o ord,
+Lemma w_compile_rejects_option : forall w o ord sord,
   g_cmp (w_g w) = CWorkflow -> (o_trigger o <> None \/ (0 < o_max_steps o)%Z) ->
-  is_err (snd (w_compile fixed w o ord)).
+  is_err (snd (w_compile fixed w o ord sord)).
 Proof.
-  intros w o ord C V. unfold w_compile. destruct (g_err (w_g w)); [eexists; reflexivity|].
+  intros w o ord sord C V. unfold w_compile. destruct (g_err (w_g w)); [eexists; reflexivity|].
   pose proof (cmp_run_branches fixed (w_branches w) w) as C1.
   destruct (run_branches fixed w (w_branches w)) as [w1 [out|]] eqn:B; simpl in C1.
   - simpl. eapply run_branches_stop_is_err; eassumption.
   - pose proof (cmp_run_nodes (ord ++ map fst (w_nodes w1)) w1) as C2.
     destruct (run_nodes w1 (ord ++ map fst (w_nodes w1))) as [w2 [er|]]; simpl in *; [eexists; reflexivity|].
-    assert (X : is_err (snd (g_compile fixed (w_g w2) o))).
+    destruct (run_statics_err_cmp fixed (sord ++ map fst (w_nodes w2)) w2) as [_ C3].
+    destruct (run_statics fixed w2 (sord ++ map fst (w_nodes w2))) as [w3 [er|]]; simpl in *; [eexists; reflexivity|].
+    assert (X : is_err (snd (g_compile fixed (w_g w3) o))).
     { apply g_compile_rejects_option; [congruence|]. destruct V; [left; assumption|right; split; [congruence|assumption]]. }
-    destruct (g_compile fixed (w_g w2) o); exact X.
+    destruct (g_compile fixed (w_g w3) o); exact X.
 Qed.
 
 (* ---- a deferred input from a node that does not exist *)
@@ -424,11 +444,11 @@ Proof.
     destruct U as [U1 U2]. split; [|assumption]. rewrite (has_node_of_keys (w_g w) g' _ K). assumption.
 Qed.
 
-Theorem workflow_rejects_unknown_input_source : forall w o ord k n i,
+Theorem workflow_rejects_unknown_input_source : forall w o ord sord k n i,
   alist_get k (w_nodes w) = Some n -> In i (wn_pending n) -> unknown_source (w_g w) i ->
-  is_err (snd (w_compile fixed w o ord)).
+  is_err (snd (w_compile fixed w o ord sord)).
 Proof.
-  intros w o ord k n i G I U. unfold w_compile. destruct (g_err (w_g w)); [eexists; reflexivity|].
+  intros w o ord sord k n i G I U. unfold w_compile. destruct (g_err (w_g w)); [eexists; reflexivity|].
   destruct (run_branches fixed w (w_branches w)) as [w1 [out|]] eqn:B.
   - simpl. eapply run_branches_stop_is_err; eassumption.
   - destruct (run_branches_unknown_kept _ _ _ _ _ _ G U B) as [G1 U1].
@@ -451,6 +471,8 @@ Section Cmp.
   Proof. unfold P. intros. rewrite (ss_cmp _ _ (g_compile_skel v g o)). assumption. Qed.
   Lemma Pc_set_err : forall g e, P g -> P (set_err e g).
   Proof. unfold P. intros. assumption. Qed.
+  Lemma Pc_set_prenode : forall g x, P g -> P (set_h_prenode x g).
+  Proof. unfold P. intros. assumption. Qed.
 End Cmp.
 
 Theorem reachable_cmp :
@@ -465,7 +487,7 @@ Proof.
   - apply (run_keeps (wstep v) (fun w => g_cmp (w_g w) = CWorkflow)); [|reflexivity].
     intros s c H.
     apply (lwinv_wstep (fun g => g_cmp g = CWorkflow) (Pc_add_node CWorkflow) (Pc_add_edge CWorkflow) (Pc_add_branch CWorkflow)
-             (Pc_compile CWorkflow) (Pc_set_err CWorkflow)).
+             (Pc_compile CWorkflow) (Pc_set_err CWorkflow) (Pc_set_prenode CWorkflow)).
     exact H.
 Qed.
 
@@ -475,7 +497,7 @@ Definition wf_unknown_input : list wcall :=
     WAddInput END_ "a" WNormal [] ].
 
 Lemma wf_unknown_input_rejected :
-  snd (wstep fixed (final (wstep fixed) (w_init false) wf_unknown_input) (WCompile opt_default []))
+  snd (wstep fixed (final (wstep fixed) (w_init false) wf_unknown_input) (WCompile opt_default [] []))
   = OErr EEdgeStartUnknown.
 Proof. vm_compute. reflexivity. Qed.
 
